@@ -134,51 +134,15 @@ Proof.
 Qed.
 
 (* ---------------------------------------------------------------- the reader's validation *)
-(* Rows*Cols/Cols == Rows on 64-bit ints is a complete overflow test for non-negative dimensions *)
-Lemma sm_dims_ok rows cols :
-  sm_dims_bad rows cols = false -> 0 <= rows /\ 0 <= cols /\ wrap64 (rows * cols) = rows * cols.
-Proof.
-  unfold sm_dims_bad. intros H. apply orb_false_elim in H as [H Hq]. apply orb_false_elim in H as [Hr Hc].
-  split; [lia|]. split; [lia|].
-  destruct (cols =? 0) eqn:E0.
-  - apply Z.eqb_eq in E0. subst. rewrite Z.mul_0_r. reflexivity.
-  - simpl in Hq. apply negb_false_iff in Hq. apply Z.eqb_eq in Hq. apply Z.eqb_neq in E0.
-    assert (0 < cols) as Hcp by lia.
-    pose proof (wrap64_range (rows * cols)) as Hw.
-    destruct (Z.eq_dec rows 0) as [->|Hr0]; [reflexivity|].
-    assert (0 < rows) as Hrp by lia.
-    set (p := wrap64 (rows * cols)) in *.
-    assert (0 <= p) as Hp.
-    { destruct (Z_lt_le_dec p 0) as [Hneg|]; [|assumption]. exfalso.
-      assert (Z.quot p cols <= 0) by (apply Z.quot_le_upper_bound; lia || (rewrite Z.mul_0_r; lia)). lia. }
-    pose proof (Z.quot_rem' p cols) as Hqr. pose proof (Z.rem_bound_pos p cols Hp Hcp) as Hrb.
-    rewrite Hq in Hqr. apply wrap64_small. split; [nia|]. nia.
-Qed.
-
-Lemma sm_dims_good rows cols : 0 <= rows -> 0 <= cols -> rows * cols < 2^63 -> sm_dims_bad rows cols = false.
-Proof.
-  intros Hr Hc Hb. unfold sm_dims_bad. replace (rows <? 0) with false by lia. replace (cols <? 0) with false by lia. simpl.
-  destruct (cols =? 0) eqn:E0; [reflexivity|]. apply Z.eqb_neq in E0. simpl.
-  rewrite wrap64_small by nia. rewrite Z.quot_mul by assumption. rewrite Z.eqb_refl. reflexivity.
-Qed.
-
-Lemma sm_overflow_test_exact rows cols : 0 <= rows -> 0 <= cols ->
-  (sm_dims_bad rows cols = false <-> wrap64 (rows * cols) = rows * cols).
-Proof.
-  intros Hr Hc. split.
-  - intros H. apply sm_dims_ok in H. tauto.
-  - intros H. apply sm_dims_good; try assumption. pose proof (wrap64_range (rows * cols)). lia.
-Qed.
-
 Lemma read_sm_ok d m :
   read_sm F T nz parseJ d = Ok m <->
-  (read_sm_core F T nz parseJ d = Ok m /\ sm_dims_bad (smd_rows d) (smd_cols d) = false /\
+  (read_sm_core F T nz parseJ d = Ok m /\ dims_bad (smd_rows d) (smd_cols d) = false /\
    idx_ok (wrap64 (smd_rows d * smd_cols d)) [] (smd_index d) = true).
 Proof.
   unfold read_sm, read_sm_core.
   destruct (parse_list F T parseJ (smd_value d)) as [vals| | |]; simpl; try (split; [discriminate|intros (C & _); discriminate]).
   destruct (negb (zlen (smd_index d) =? zlen vals)); [split; [discriminate|intros (C & _); discriminate]|].
-  destruct (sm_dims_bad (smd_rows d) (smd_cols d)); [split; [discriminate|intros (_ & C & _); discriminate]|].
+  destruct (dims_bad (smd_rows d) (smd_cols d)); [split; [discriminate|intros (_ & C & _); discriminate]|].
   destruct (idx_ok _ [] (smd_index d)); simpl.
   - split; [intros H; repeat split; assumption|intros (H & _); assumption].
   - split; [discriminate|intros (_ & _ & C); discriminate].
@@ -189,7 +153,7 @@ Lemma read_sm_safe d m :
   read_sm F T nz parseJ d = Ok m -> wf_sm m /\ sm_rows m = smd_rows d /\ sm_cols m = smd_cols d.
 Proof.
   intros H. apply read_sm_ok in H as (Hc & Hd & Hi).
-  apply sm_dims_ok in Hd as (Hr & Hcn & Hw). rewrite Hw in Hi. apply idx_ok_nil in Hi as [HF _].
+  apply dims_ok in Hd as (Hr & Hcn & Hw). rewrite Hw in Hi. apply idx_ok_nil in Hi as [HF _].
   unfold read_sm_core in Hc. apply bind_ok in Hc as (vals & _ & Hc).
   destruct (negb (zlen (smd_index d) =? zlen vals)); [discriminate|].
   apply bind_ok in Hc as (st & Hst & Hc). inversion Hc; subst m; clear Hc. simpl.
@@ -209,7 +173,7 @@ Proof.
   destruct (parse_list F T parseJ (smd_value d)) as [vals| | |] eqn:Ep; simpl; try (split; discriminate);
     try (unfold parse_list in Ep; destruct (mapM parseJ _); discriminate).
   destruct (zlen (smd_index d) =? zlen vals) eqn:El; simpl; [|split; discriminate].
-  destruct (sm_dims_bad (smd_rows d) (smd_cols d)); [split; discriminate|].
+  destruct (dims_bad (smd_rows d) (smd_cols d)); [split; discriminate|].
   destruct (idx_ok _ [] (smd_index d)) eqn:Ei; simpl; [|split; discriminate].
   apply idx_ok_nil in Ei as [HF Hnd]. apply Z.eqb_eq in El.
   destruct (nsg_ok F nz (wrap64 (smd_rows d * smd_cols d)) (smd_index d) vals []) as (ents & He & _).
@@ -259,7 +223,7 @@ Proof.
   apply bind_ok in Hw as (st & Hst & Hw). apply bind_ok in Hw as (ts & _ & Hw). inversion Hw; subst d; simpl.
   destruct (storage_spec m st Hwf Hst) as (Hwst & Hnst & _).
   pose proof Hwf as (_ & _ & H3 & H4 & _).
-  split; [apply sm_dims_good; assumption|].
+  split; [apply dims_good; assumption|].
   rewrite wrap64_small by nia.
   apply live_idx_ok; [assumption|lia].
 Qed.
